@@ -227,7 +227,7 @@ class Check(object):
             'coverage': cov, 'assumptions': self.assume, 'wall_s': round(time.time() - self.t0, 2),
             'violations': len(self.violations),
         }
-        with open(os.path.join(ROOT, 'evidence', self.prop + '.json'), 'w') as f:
+        with open(os.path.join(os.environ.get('VERIF_EVIDENCE_DIR') or os.path.join(ROOT, 'evidence'), self.prop + '.json'), 'w') as f:
             json.dump(ev, f, indent=1, default=str)
         for l in lines:
             print(l)
